@@ -16,7 +16,9 @@ NOTE = ("Trusted: TLC/SANY 1.8.0 and CommunityModules; g++ 12 and sanitizer runt
 CHECKS = {
     "C01": ("Wire.tla theorem W1 (Dec o Enc = id, MC_Wire) model-checked; every pool type x boundary/random values x "
             "1-3 consecutive values x rotating writer/reader pairings executed on real readers/writers and validated by "
-            "TrCodec.tla (C01R: k-th read = k-th written value, consumed = written).", "6 C01"),
+            "TrCodec.tla (C01R: k-th read = k-th written value, consumed = written); the three Serializer/Deserializer "
+            "specializations (writer/reader held by value, pointer, unique_ptr) compared on 12 encodings (FORMS event); "
+            "thorough tier repeats everything on the ASan+UBSan build.", "6 C01, 13.5"),
     "C02": ("Hostile byte strings (single-byte defects at every leading position, splices, truncations, random strings) read "
             "through BufferReader/PedanticBufferReader/BoundedReader in an ASan+UBSan build and a plain build with an "
             "allocation counter; TrCodec.tla C02R accepts an event only if no request left the source, allocation <= "
@@ -41,10 +43,12 @@ CHECKS = {
     "C10": ("For every generated value a fault is injected at EVERY primitive call position of Read and Write with every error "
             "code; TrCodec.tla C10Runs requires the code back verbatim, no call after the failure, emitted bytes a prefix of "
             "the fault-free output and nothing written when Prepare fails. The same at the RPC layer: a fault at every "
-            "primitive of each of the four pipe ends of SimpleMethodSender/Receiver calls (TrRpc.tla FaultFails).", "6 C10"),
+            "primitive of each of the four pipe ends of SimpleMethodSender/Receiver calls, incl. a method without a "
+            "return value (TrRpc.tla FaultFails).", "6 C10"),
     "C11": ("Reads into destinations whose prior state came from assignment or from a read that failed at primitive k are "
             "compared (status, value, consumed) with the read into a fresh object; lifetime ledger of Tracked elements must "
-            "balance; ASan/UBSan build.", "6 C11"),
+            "balance; ASan/UBSan build; also strings / integral vectors of 4097 and 70000 elements (alone and as members) "
+            "over short, long and half-read destinations.", "6 C11"),
     "C16": ("IO.tla automata of BoundedReader/BoundedWriter: MC_IO explores every call sequence (sizes incl. 0, budget, "
             "budget+1, 2^64-1, 2^64-2; every limit; wrapped object failing at any call) and checks Confine, "
             "RefusalUntouched, Transparent; TLC-generated sequences (Gen_IO) and random sequences are replayed on real "
@@ -63,7 +67,8 @@ CHECKS = {
     "C18": ("SipHash.tla (SipHash-2-4 transcribed from the paper on 16-bit limbs, self-checked against the reference "
             "vectors by MC_Fn) evaluates every hash: messages of every length/residue, uint8_t and char buffers, varied keys, "
             "and 26 generated names x (NOP_TABLE_NS hash at compile time / run time / on the wire, NOP_INTERFACE and "
-            "NOP_INTERFACE32 hashes, NOP_METHOD selectors); TrFn.tla requires equality.", "6 C18"),
+            "NOP_INTERFACE32 hashes, NOP_METHOD selectors); the pointer+size and the array entry points, zero bytes "
+            "anywhere, constant arrays hashed in constant expressions; TrFn.tla requires equality.", "6 C18"),
     "C20": ("Endian.tla (byte-order conversions as byte permutations, theorems checked by MC_Fn); every value of the 8/16-bit "
             "types, boundary/lane/random values of wider types and floats validated by TLC (TrFn.tla); all 2^32 inputs of "
             "uint32/int32/float (thorough; first 2^27 in quick) compared with the byte map emitted by TLC from Endian.tla.", "6 C20"),
@@ -72,10 +77,12 @@ CHECKS = {
             "length 3; these and random histories (20-120 ops, 3 objects) are replayed on nop::Variant<A,B> with "
             "lifetime-tracking, possibly throwing elements under ASan; TrObj.tla validates after every operation index(), "
             "Visit (exactly one call, active element), get<T>, is<T>, the post-state relation and the ledger of live elements "
-            "(no leak, no double destruction, no use of a dead element).", "6 C12"),
+            "(no leak, no double destruction, no use of a dead element); the operations include construction / assignment "
+            "from a Variant over other types, IfAnyOf Get/Call/Swap/Take, const and index-based get and std::get.", "6 C12"),
     "C13": ("Lifetimes.tla Optional/Entry/Result machines handled as C12 (Optional<Tracked>, Optional<int>, Entry<Tracked,5>, "
             "Result<E,Tracked>): emptiness/has_value/has_error/error()/bool, moved-from-by-assignment is empty, ledger; all 18 "
-            "Optional relational operators on all operand states against the total order of the spec; GetErrorMessage "
+            "Optional relational operators on all operand states against the total order of the spec; Status<void> "
+            "(Result<E,void>) as a machine of its own; converting assignment from Optional<U>; GetErrorMessage "
             "defined and distinct for every ErrorStatus.", "6 C13"),
     "C15": ("(a) W events of every handle-bearing pool type: handles pushed exactly once in the encounter order of "
             "Wire.tla's EncR, the returned reference (incl. -1, 2^31, 2^63-1, negatives) encoded after the type tag; reads "
@@ -92,7 +99,8 @@ CHECKS = {
             "and validated by TrCodec.tla C07R (projection, sentinel).", "6 C07"),
     "C08": ("Gen_TableMut.tla: TLC takes valid table encodings apart into entry frames and emits every single-defect "
             "reassembly (hash, count, duplicate, unknown, padding, declared size, corrupt/truncated value); the real decoder's "
-            "status, value, consumed length and error category are compared with Dec of Wire.tla (TrCodec.tla).", "6 C08"),
+            "status, value, consumed length and error category are compared with Dec of Wire.tla (TrCodec.tla); wrong "
+            "hashes are a family (0, all ones, +-1, halves / single bytes cleared, top bit, reversed).", "6 C08"),
     "C09": ("Fungible.tla: DocFungible (the documented fungible pairs as a relation on schemas) and Norm (wire-level "
             "content); the compiler evaluates IsFungible and Protocol admission on all ordered pairs of a 124-type grammar "
             "(every sequence spelling - vector, std::array, C array, tuple, structure member - over every element class) "
@@ -104,11 +112,14 @@ CHECKS = {
             "handler and no reply. MC_Rpc model-checks framing/one-handler/return invariants over all call sequences. "
             "End-to-end executions (Invoke -> SimpleMethodSender -> loopback pipes -> SimpleMethodReceiver -> "
             "InterfaceBindings -> handler) incl. truncated/corrupted/raw requests are validated call by call by TrRpc.tla "
-            "(request framing, dispatcher status, handler log, reply bytes, Invoke result, pipe positions).", "6 C14"),
+            "(request framing, dispatcher status, handler log, reply bytes, Invoke result, pipe positions); arguments of "
+            "conforming types (narrower / differently signed integers) must travel converted to the declared type "
+            "(AsDeclared); Method::Selector, lookup by index and InterfaceBindings::Match are checked against the spec.", "6 C14"),
     "C19": ("Threads.tla: per-thread, per-(T,Slot) storage; MC_Threads explores all interleavings of 2-3 threads running "
             "ThreadLocal programs (Isolation, ScheduleIndependent) and emits the schedules, which real std::threads replay in "
             "lock step; free-running 4-16 threads mix ThreadLocal operations on shared slot types with serializer round "
-            "trips (12 encodings) and RPC connections on their own objects; TrThreads.tla validates every observation against the model and every in-thread "
+            "trips (12 encodings, three Serializer forms), RPC connections and reader/writer call sequences with thread-specific "
+            "padding values on their own objects; TrThreads.tla validates every observation against the model and every in-thread "
             "codec step against Wire.tla; the executor is built with ThreadSanitizer and a report is a Race event that no "
             "action accepts.", "6 C19"),
 }
